@@ -18,8 +18,9 @@
 #include "celt/bands.h"
 #include "celt/modes.h"
 
-static int g_on, g_len;
+static int g_on, g_len, g_offs_in, g_offs_out;
 static long g_frames, g_err, g_hist[64];
+static long g_reads, g_pos, g_f2, g_f3; static int g_fp, g_min_slack2 = 1 << 30;
 static int g_min_slack = 1 << 30, g_min_end = 1 << 30, g_max_drift = -(1 << 30), g_cur_slack, g_cur_end;
 
 void __real_quant_all_bands(int, const CELTMode *, int, int, celt_norm *, celt_norm *, unsigned char *, const celt_ener *, int *, int, int,
@@ -29,15 +30,17 @@ void __wrap_quant_all_bands(int encode, const CELTMode *m, int start, int end, c
    opus_int32 balance, ec_ctx *ec, int LM, int codedBands, opus_uint32 *seed, int complexity, int arch, int disable_inv)
 {
    int t0 = (int)ec_tell_frac(ec);
-   g_on = !encode;
+   g_on = !encode; g_fp = 0; g_offs_in = (int)ec->offs;
    __real_quant_all_bands(encode, m, start, end, X, Y, cm, bandE, pulses, shortBlocks, spread, dual_stereo, intensity, tf_res, total_bits,
       balance, ec, LM, codedBands, seed, complexity, arch, disable_inv);
-   g_on = 0; g_cur_slack = 99;
+   g_on = 0; g_cur_slack = 99; g_offs_out = (int)ec->offs;
    if (!encode && (int)ec_tell_frac(ec) != t0) {
       int s = (int)total_bits - (int)ec_tell_frac(ec);
       g_cur_slack = s;
       if (s < g_min_slack) g_min_slack = s;
       if (s < 32 && s > -32) g_hist[s + 32]++;
+      if (g_fp >= 2) { g_f2++; if (s < g_min_slack2) g_min_slack2 = s; }
+      if (g_fp >= 3) g_f3++;
    }
 }
 opus_uint32 __real_ec_dec_uint(ec_dec *, opus_uint32);
@@ -47,6 +50,7 @@ opus_uint32 __wrap_ec_dec_uint(ec_dec *d, opus_uint32 ft)
       int t0 = (int)ec_tell_frac(d), dr; opus_uint32 v = __real_ec_dec_uint(d, ft);
       dr = (int)ec_tell_frac(d) - t0 - (int)ceill(8.0L * log2l((long double)ft) - 1e-12L);
       if (dr > g_max_drift) g_max_drift = dr;
+      g_reads++; if (dr >= 1) { g_pos++; g_fp++; if (0) fprintf(stderr, "P ft=%u 8log2=%.5Lf dest=%d rng_before? t0=%d\n", (unsigned)ft, 8.0L * log2l((long double)ft), (int)ec_tell_frac(d) - t0, t0); }
       return v;
    }
    return __real_ec_dec_uint(d, ft);
@@ -73,6 +77,84 @@ int main(int argc, char **argv)
    if (argc < 5 || strcmp(argv[1], "scan")) { fprintf(stderr, "usage: c03_budget scan <seed> <n> <maxlen>\n"); return 64; }
    r.s = strtoull(argv[2], 0, 10) * 0xD1342543DE82EF95ULL + 0x1234567ULL; vnext(&r); r.s ^= r.s >> 29; vnext(&r); n = atol(argv[3]); maxlen = atoi(argv[4]);
    d[0] = opus_decoder_create(48000, 1, &err); d[1] = opus_decoder_create(48000, 2, &err);
+   if (argc >= 6 && !strcmp(argv[5], "enc")) {
+      /* encoder-generated CELT frames (hard CBR: the last coded band receives everything that is left) */
+      static opus_int16 in[960 * 2]; long fired = 0; int e2; unsigned char pk[1300];
+      static const int FS[4] = {120, 240, 480, 960}; static const int BW[5] = {OPUS_BANDWIDTH_NARROWBAND, OPUS_BANDWIDTH_MEDIUMBAND, OPUS_BANDWIDTH_WIDEBAND, OPUS_BANDWIDTH_SUPERWIDEBAND, OPUS_BANDWIDTH_FULLBAND};
+      for (i = 0; i < n; ) {
+         int ch = 1 + (int)vbelow(&r, 2), fs = FS[vbelow(&r, 4)], f, nf = 30, k; double lp = 0, a = 0.2 + 0.79 * vbelow(&r, 100) / 100.0, amp = 50 + vbelow(&r, 12000);
+         OpusEncoder *e = opus_encoder_create(48000, ch, OPUS_APPLICATION_RESTRICTED_LOWDELAY, &e2);
+         opus_encoder_ctl(e, OPUS_SET_VBR(vchance(&r, 30))); opus_encoder_ctl(e, OPUS_SET_BANDWIDTH(BW[vbelow(&r, 5)]));
+         opus_encoder_ctl(e, OPUS_SET_COMPLEXITY((int)vbelow(&r, 11)));
+         opus_encoder_ctl(e, OPUS_SET_BITRATE(6000 + (int)vbelow(&r, 1) + (int)(vbelow(&r, 1000) * vbelow(&r, 500))));
+         if (maxlen == 1) {   /* targeted: mono 20 ms WB, the last band (16, N=48) splits into four N=12 leaves with K near 15 */
+            opus_encoder_destroy(e); ch = 1; fs = 960; e = opus_encoder_create(48000, 1, OPUS_APPLICATION_RESTRICTED_LOWDELAY, &e2);
+            opus_encoder_ctl(e, OPUS_SET_VBR(0)); opus_encoder_ctl(e, OPUS_SET_BANDWIDTH(OPUS_BANDWIDTH_WIDEBAND));
+            opus_encoder_ctl(e, OPUS_SET_COMPLEXITY((int)vbelow(&r, 11))); opus_encoder_ctl(e, OPUS_SET_BITRATE(30000 + (int)vbelow(&r, 40000)));
+            a = 0.0 + 0.5 * vbelow(&r, 100) / 100.0;
+         }
+         if (maxlen == 2) {   /* targeted: mono 20 ms SWB, band 17 (N=64) splits into four N=16 leaves with K near 5 */
+            opus_encoder_destroy(e); ch = 1; fs = 960; e = opus_encoder_create(48000, 1, OPUS_APPLICATION_RESTRICTED_LOWDELAY, &e2);
+            opus_encoder_ctl(e, OPUS_SET_VBR(0)); opus_encoder_ctl(e, OPUS_SET_BANDWIDTH(OPUS_BANDWIDTH_SUPERWIDEBAND));
+            opus_encoder_ctl(e, OPUS_SET_COMPLEXITY((int)vbelow(&r, 11))); opus_encoder_ctl(e, OPUS_SET_BITRATE(24000 + (int)vbelow(&r, 40000)));
+            a = 0.0 + 0.5 * vbelow(&r, 100) / 100.0;
+         }
+         opus_decoder_ctl(d[ch - 1], OPUS_RESET_STATE);
+         for (f = 0; f < nf; f++, i++) {
+            int ret, bytes;
+            for (k = 0; k < fs * ch; k++) { double w = ((double)vbelow(&r, 65536) / 32768.0 - 1.0); lp = a * lp + (1 - a) * w; in[k] = (opus_int16)(amp * (vchance(&r, 2) ? 3 * w : lp * 3)); }
+            if (vchance(&r, 10)) amp = 50 + vbelow(&r, 20000);
+            bytes = opus_encode(e, in, fs, pk, 1275);
+            if (bytes < 2) continue;
+            ret = opus_decode(d[ch - 1], pk, bytes, pcm, 5760, 0);
+            if (ret < 0 || g_cur_slack < 0) { fired++; if (shown++ < 20) { printf("W ret=%s slack=%d end=%d pkt=", ret < 0 ? verr(ret) : "ok", g_cur_slack, g_cur_end); vhex(stdout, pk, bytes); printf("\n"); } }
+         }
+         opus_encoder_destroy(e);
+      }
+      printf("# pvq_reads=%ld positive_drift=%ld frames_with_2=%ld frames_with_3=%ld min_slack_among_them=%d\n", g_reads, g_pos, g_f2, g_f3, g_min_slack2);
+      printf("# enc frames=%ld negative_or_error=%ld celt_errors=%ld min_slack_after_bands=%d min_bits_left_at_end=%d max_pvq_drift=%d\n# slack histogram:",
+             g_frames, fired, g_err, g_min_slack, g_min_end, g_max_drift);
+      for (i = 0; i < 64; i++) if (g_hist[i]) printf(" %ld:%ld", i - 32, g_hist[i]);
+      printf("\n");
+      return 0;
+   }
+   if (argc >= 6 && !strcmp(argv[5], "climb2")) {
+      /* encoder-generated start frames with little slack; then mutations confined to the bytes the last band data symbols are
+         decoded from (everything in front — header, allocation, earlier bands — stays as it is) */
+      static opus_int16 in[960 * 2]; long fired = 0, tried = 0, best_all = 99; int e2; unsigned char pk[1300], q[1300];
+      static const int BW[3] = {OPUS_BANDWIDTH_WIDEBAND, OPUS_BANDWIDTH_SUPERWIDEBAND, OPUS_BANDWIDTH_FULLBAND};
+      for (i = 0; i < n; ) {
+         int ch = vchance(&r, 75) ? 1 : 2, fs = vchance(&r, 70) ? 960 : 480, f, k; double lp = 0, a = 0.2 + 0.79 * vbelow(&r, 100) / 100.0, amp = 50 + vbelow(&r, 12000);
+         OpusEncoder *e = opus_encoder_create(48000, ch, OPUS_APPLICATION_RESTRICTED_LOWDELAY, &e2);
+         opus_encoder_ctl(e, OPUS_SET_VBR(0)); opus_encoder_ctl(e, OPUS_SET_BANDWIDTH(BW[vbelow(&r, 3)]));
+         opus_encoder_ctl(e, OPUS_SET_COMPLEXITY((int)vbelow(&r, 11)));
+         opus_encoder_ctl(e, OPUS_SET_BITRATE(8000 + (int)(vbelow(&r, 400) * vbelow(&r, 400))));
+         for (f = 0; f < 30; f++, i++) {
+            int ret, bytes, cur, curfp, it, lo, hi;
+            for (k = 0; k < fs * ch; k++) { double w = ((double)vbelow(&r, 65536) / 32768.0 - 1.0); lp = a * lp + (1 - a) * w; in[k] = (opus_int16)(amp * (vchance(&r, 2) ? 3 * w : lp * 3)); }
+            bytes = opus_encode(e, in, fs, pk, 1275);
+            if (bytes < 4) continue;
+            ret = opus_decode(d[ch - 1], pk, bytes, pcm, 5760, 0);
+            if (ret < 0 || g_cur_slack > 3) continue;
+            tried++; cur = g_cur_slack; curfp = g_fp;
+            for (it = 0; it < 4000 && cur >= 0; it++) {
+               int nv, nfp, pos;
+               lo = g_offs_out - 9; if (lo < 1) lo = 1; hi = g_offs_out + 1; if (hi > bytes - 1) hi = bytes - 1; if (hi < lo) break;
+               memcpy(q, pk, bytes);
+               pos = vrange(&r, lo, hi);
+               if (vchance(&r, 50)) q[pos] ^= (unsigned char)(1u << vbelow(&r, 8)); else q[pos] = (unsigned char)vbelow(&r, 256);
+               ret = opus_decode(d[ch - 1], q, bytes, pcm, 5760, 0); nv = ret < 0 ? -99 : g_cur_slack; nfp = g_fp;
+               if (nv < cur || (nv == cur && nfp >= curfp)) { cur = nv; curfp = nfp; memcpy(pk, q, bytes); }
+               else { opus_decode(d[ch - 1], pk, bytes, pcm, 5760, 0); }   /* restore g_offs_out of the kept packet */
+            }
+            if (cur < best_all) best_all = cur;
+            if (cur < 0) { fired++; if (shown++ < 20) { printf("W slack=%d end=%d pkt=", cur, g_cur_end); vhex(stdout, pk, bytes); printf("\n"); } }
+         }
+         opus_encoder_destroy(e);
+      }
+      printf("# climb2 starts=%ld best_slack=%ld negative=%ld celt_errors=%ld min_bits_left_at_end=%d\n", tried, best_all, fired, g_err, g_min_end);
+      return 0;
+   }
    if (argc >= 6 && !strcmp(argv[5], "climb")) {
       /* hill climbing on the slack after quant_all_bands: random start, byte/bit mutations, accept when not worse */
       long starts = n, it, best_all = 99, fired = 0;
